@@ -124,6 +124,7 @@ func newMgen(rng *rand.Rand, env map[string]string, free bool) *mgen {
 				"3.10", "3.10.0", "3.9", "3.9.6", "3.9.7", "3.8", "3.8.20", "3", "4", "2.7", "3.9.0", "3.11",
 				v + "rc1", v + ".dev1", v + ".post1", v + "a0", bump(v, 1) + "rc1", bump(v, 1) + ".dev0",
 				v + ".*", major + ".*", bump(v, 1) + ".*",
+				v + ".0.0", v + ".post0",
 				// Non-version text.
 				"", "abc", v + "x", v + ".", "three", "3.x", "py" + v,
 				// Containers for in / not in.
